@@ -279,6 +279,7 @@ func c01(r *core.Run) {
 	feederRules(r, "C01")
 	hashtrieRules(r, "C01")
 	stageRules(r, "C01")
+	readAtReentrant(r, "C01.W1")
 }
 
 // spanCodec checks every binary.<order> Uint64/PutUint64 site of the file-format packages.
